@@ -320,9 +320,18 @@ def runMonitor (s : St) (opKind : String) (cur : Option Seen) (now : Nat) (relay
         if !ok then
           s ← monitor s "not-relayed-unless-accepted" s!"message id={id} was broadcast although it did not (validly) change the graph in this step"
         else s := { s with relays := s.relays + 1 }
-  -- what is relayed must be byte-identical to what was received
+  -- what is relayed must be byte-identical to what was received.  Known finding (codec): lnwire's
+  -- ChannelUpdate1.Encode drops unknown extra-data TLVs; only that exact situation gets the
+  -- clause `relay-wire-faithful`, every other altered relay is `relay-bytes-altered`.
   for r in wf do
-    s ← monitor s "relay-wire-faithful" s!"message id={r} is relayed with bytes different from the received (signed) ones"
+    let es := (match cur with | some e => [e] | none => []) ++ s.seen
+    let isCuWithExtra := match es.find? (fun e => toString e.id == r) with
+      | some e => (match e.msg with | .cu u => u.extra != "" | _ => false)
+      | none => false
+    if isCuWithExtra then
+      s ← monitor s "relay-wire-faithful" s!"channel_update id={r} carrying extra-data TLVs is relayed with bytes different from the received (signed) ones"
+    else
+      s ← monitor s "relay-bytes-altered" s!"message id={r} is relayed with bytes different from the received (signed) ones"
   -- bookkeeping: an invalid message that changed nothing
   match cur with
   | some e =>
